@@ -86,3 +86,26 @@ package keeper
 //@   ensures [C13] #c13-total: ok ==> deposited(k, ctx, msg.AppId, msg.AssetId) == old(deposited(k, ctx, msg.AppId, msg.AssetId)) - l0.NetBalance
 //@   ensures [C13] #c13-savings-recorded: ok ==> nf(k, ctx, msg.AppId, msg.AssetId) == old(nf(k, ctx, msg.AppId, msg.AssetId)) - reward
 //@   ensures [C13] #c13-frame-lockers: ok ==> forall j :: j != msg.LockerId ==> k.GetLocker(ctx, j) == old(k.GetLocker(ctx, j))
+
+// Create a locker (C13 books, C14 controls): the deposit moves into locker custody, the new locker records exactly the
+// deposit, the product total grows by it, the id counter moves by one, no other locker changes.
+//@ func (k msgServer) MsgCreateLocker
+//@   property C13, C14
+//@   let den = k.asset.GetAsset(ctx, msg.AssetId).0.Denom
+//@   let lm = modaddr("lockerV1")
+//@   let user = addr(msg.Depositor)
+//@   let id0 = k.GetIDForLocker(ctx)
+//@   requires #validated: msg.ValidateBasic() == nil
+//@   requires #app-keyed: k.asset.GetApp(ctx, msg.AppId).1 ==> k.asset.GetApp(ctx, msg.AppId).0.Id == msg.AppId
+//@   requires #asset-keyed: k.asset.GetAsset(ctx, msg.AssetId).1 ==> k.asset.GetAsset(ctx, msg.AssetId).0.Id == msg.AssetId
+//@   requires #lookup-keyed: k.GetLockerLookupTable(ctx, msg.AppId, msg.AssetId).1 ==> k.GetLockerLookupTable(ctx, msg.AppId, msg.AssetId).0.AppId == msg.AppId && k.GetLockerLookupTable(ctx, msg.AppId, msg.AssetId).0.AssetId == msg.AssetId
+//@   requires #product-keyed: k.GetLockerProductAssetMapping(ctx, msg.AppId, msg.AssetId).1 ==> k.GetLockerProductAssetMapping(ctx, msg.AppId, msg.AssetId).0.AppId == msg.AppId
+//@   requires #distinct-accounts: user != lm
+//@   requires #ids: id0 < pow2(64) - 1 && (forall j :: j > id0 ==> !k.GetLocker(ctx, j).1)
+//@   fails_if [C14] #c14-breaker: k.esm.GetKillSwitchData(ctx, msg.AppId).0.BreakerEnable
+//@   fails_if [C14] #c14-esm: k.esm.GetESMStatus(ctx, msg.AppId).1 && k.esm.GetESMStatus(ctx, msg.AppId).0.Status
+//@   ensures [C13] #c13-user-pays: ok ==> bal(user, den) == old(bal(user, den)) - msg.Amount
+//@   ensures [C13] #c13-custody: ok ==> bal(lm, den) == old(bal(lm, den)) + msg.Amount
+//@   ensures [C13] #c13-total: ok ==> deposited(k, ctx, msg.AppId, msg.AssetId) == old(deposited(k, ctx, msg.AppId, msg.AssetId)) + msg.Amount
+//@   ensures [C13] #c13-new-locker-records-deposit: ok ==> k.GetIDForLocker(ctx) == id0 + 1 && k.GetLocker(ctx, id0 + 1).1 && k.GetLocker(ctx, id0 + 1).0.NetBalance == msg.Amount && k.GetLocker(ctx, id0 + 1).0.Depositor == msg.Depositor && k.GetLocker(ctx, id0 + 1).0.AppId == msg.AppId && k.GetLocker(ctx, id0 + 1).0.AssetDepositId == msg.AssetId
+//@   ensures [C13] #c13-frame-lockers: ok ==> forall j :: j != id0 + 1 ==> k.GetLocker(ctx, j) == old(k.GetLocker(ctx, j))
